@@ -601,6 +601,105 @@ fn token_pos(items: &[Item], tok: &[u8]) -> Option<usize> {
     })
 }
 
+
+// ---------------------------------------------------------------------------------------------
+// second family: a group led by a positional - `construct!(key, value).adjacent().many()` with
+// strict members: pairs of words right of `--`
+// ---------------------------------------------------------------------------------------------
+
+pub struct PairCase {
+    pub level: Level,
+    pub argv: Vec<Vec<u8>>,
+    pub words: Vec<Vec<u8>>,
+}
+
+pub fn decode_pairs(bytes: &[u8]) -> PairCase {
+    let mut u = Un::new(bytes);
+    let mut names = Names::new();
+    let mut fields: Vec<Node> = Vec::new();
+    let mut argv: Vec<Vec<u8>> = Vec::new();
+    for _ in 0..u.below(3) {
+        let n = gen_named_leaf(&mut u, &mut names, NamedKind::Switch);
+        if u.bool() {
+            argv.push(name_item(&mut u, &n));
+        }
+        fields.push(Node::Named(n));
+    }
+    let strict = if u.chance(200) { Strictness::Strict } else { Strictness::Unrestricted };
+    let mut key = spos(&mut names, "KEY");
+    key.strict = strict;
+    let mut val = spos(&mut names, "VAL");
+    val.strict = strict;
+    fields.push(Node::Many {
+        n: Node::Adjacent(vec![Node::Pos(key), Node::Pos(val)]).b(),
+        catch: false,
+    });
+    let level = Level::simple(Node::Seq(fields));
+    argv.push(b"--".to_vec());
+    let k = u.below(4);
+    let odd = u.chance(50);
+    let mut words = Vec::new();
+    for i in 0..(2 * k + usize::from(odd)) {
+        let w = if u.chance(60) {
+            (*u.pick(&[&b"-v"[..], &b"--"[..], &b"--x"[..]])).to_vec()
+        } else {
+            format!("w{}", i).into_bytes()
+        };
+        words.push(w);
+    }
+    argv.extend(words.iter().cloned());
+    PairCase { level, argv, words }
+}
+
+pub fn check_pairs(bytes: &[u8], ctx: &mut Ctx) -> Verdict {
+    let case = decode_pairs(bytes);
+    let parser = match guarded(|| {
+        let p = build_level(&case.level);
+        p.check_invariants(false);
+        p
+    }) {
+        Ok(p) => p,
+        Err((at, msg)) => {
+            return Verdict::fail(
+                "generator/invariants",
+                format!(
+                    "{}: check_invariants panicked at {}: {}",
+                    show_level(&case.level),
+                    at,
+                    msg
+                ),
+            )
+        }
+    };
+    let out = run(&parser, &case.argv);
+    ctx.eval(1);
+    ctx.class("family:pairs-of-positionals");
+    if case.words.len() >= 2 {
+        ctx.nontrivial(fnv_str(&format!("{:?}{:?}", case.level, case.argv)));
+    }
+    let even = case.words.len() % 2 == 0;
+    match (&out, even) {
+        (Outcome::Panic { at, msg }, _) => Verdict::fail(format!("panic@{}", at), msg.clone()),
+        (Outcome::Value(v), true) => {
+            let mut leaves = Vec::new();
+            v.leaves(&mut leaves);
+            if leaves == case.words {
+                Verdict::Pass
+            } else {
+                Verdict::fail(
+                    "pairs/words-lost-or-reordered",
+                    format!("{:?} -> {}", show_argv(&case.argv), v),
+                )
+            }
+        }
+        (Outcome::Stderr(_), false) => Verdict::Pass,
+        (other, _) => Verdict::fail(
+            if even { "pairs/well-formed-pairs-rejected" } else { "pairs/half-a-pair-accepted" },
+            format!("{} on {:?} -> {}", show_level(&case.level), show_argv(&case.argv), other.short()),
+        ),
+    }
+}
+
 impl Prop for C19 {
     fn id(&self) -> &'static str {
         "C19"
@@ -623,6 +722,10 @@ impl Prop for C19 {
          argv)."
     }
     fn check(&self, bytes: &[u8], ctx: &mut Ctx) -> Verdict {
+        // one case in sixteen belongs to the second family
+        if bytes.first().map_or(false, |b| b % 16 == 15) {
+            return check_pairs(&bytes[1..], ctx);
+        }
         let case = decode(bytes);
         let parser = match guarded(|| {
             let p = build_level(&case.level);
@@ -768,6 +871,14 @@ impl Prop for C19 {
         }]
     }
     fn describe(&self, bytes: &[u8]) -> Value {
+        if bytes.first().map_or(false, |b| b % 16 == 15) {
+            let c = decode_pairs(&bytes[1..]);
+            return json!({
+                "family": "adjacent pairs of positionals right of --",
+                "definition": show_level(&c.level),
+                "argv": show_argv(&c.argv),
+            });
+        }
         let case = decode(bytes);
         let argv: Vec<Vec<u8>> = case.items.iter().map(|i| i.bytes.clone()).collect();
         json!({
